@@ -50,6 +50,7 @@ type planExec struct {
 	handles  map[string]interface{}
 	retained []retained
 	out      *PlanResult
+	handleDeep map[string]string // request values the library client holds, as they were when created
 }
 
 func (x *planExec) violate(prop, oracle, op, key, format string, a ...interface{}) {
@@ -171,6 +172,12 @@ func (x *planExec) runRequest(t *Task, op *Op) *OpResult {
 			}
 		}
 		x.handles[op.ID] = h
+		if x.handleDeep == nil {
+			x.handleDeep = map[string]string{}
+		}
+		if _, ok := x.handleDeep[op.ID]; !ok && op.Resubmit == "" {
+			x.handleDeep[op.ID] = Deep(w.env.LibValue(h))
+		}
 		return w.DoLib(t, h, op.Inject)
 	}
 	return nil
@@ -312,6 +319,13 @@ func (x *planExec) finish(op *Op, res *OpResult) {
 		x.retained = append(x.retained, retained{id: op.ID, res: res.LibResult, deep: Deep(res.LibResult)})
 	}
 	if prop == "C09" {
+		for _, id := range sortedStrKeys(x.handleDeep) {
+			if now := Deep(x.w.env.LibValue(x.handles[id])); now != x.handleDeep[id] {
+				x.violate("C09", "other-request-value-modified", op.ID, "C09|other-request-value-modified|"+method,
+					"the request value %s (held by the client, sharing memory with other requests) changed while %s was processed: %s", id, op.ID, firstDiff(x.handleDeep[id], now))
+				x.handleDeep[id] = now
+			}
+		}
 		for _, r := range x.retained {
 			if r.id == op.ID {
 				continue
@@ -512,4 +526,13 @@ func jsonEqual(a, b []byte) bool {
 		return bytes.Equal(a, b)
 	}
 	return bytes.Equal(JSONBytes(va), JSONBytes(vb))
+}
+
+func sortedStrKeys(m map[string]string) []string {
+	ks := make([]string, 0, len(m))
+	for k := range m {
+		ks = append(ks, k)
+	}
+	sort.Strings(ks)
+	return ks
 }
